@@ -324,18 +324,24 @@ func (s *TemporalStore) Coalesce(predicate ast.PredicateSym) error {
 }
 
 // coalesceIntervals merges overlapping or adjacent intervals.
-// Intervals must have concrete timestamps (not variables or unbounded).
+// Intervals must have concrete timestamps or be unbounded (not variables).
+// An unbounded start or end takes part in merging like a timestamp that is
+// smaller, respectively larger, than every other one.
 func coalesceIntervals(intervals []ast.Interval) []ast.Interval {
 	if len(intervals) <= 1 {
 		return intervals
 	}
 
-	// Separate concrete intervals from those with variables/unbounded
+	isConcrete := func(b ast.TemporalBound) bool {
+		return b.Type == ast.TimestampBound || b.Type == ast.NegativeInfinityBound || b.Type == ast.PositiveInfinityBound
+	}
+
+	// Separate concrete intervals from those with variables
 	var concrete []ast.Interval
 	var other []ast.Interval
 
 	for _, i := range intervals {
-		if i.Start.Type == ast.TimestampBound && i.End.Type == ast.TimestampBound {
+		if isConcrete(i.Start) && isConcrete(i.End) {
 			concrete = append(concrete, i)
 		} else {
 			other = append(other, i)
@@ -347,8 +353,8 @@ func coalesceIntervals(intervals []ast.Interval) []ast.Interval {
 	}
 
 	// Sort by start time
-	sort.Slice(concrete, func(i, j int) bool {
-		return concrete[i].Start.Timestamp < concrete[j].Start.Timestamp
+	sort.SliceStable(concrete, func(i, j int) bool {
+		return GetStartTime(concrete[i]) < GetStartTime(concrete[j])
 	})
 
 	// Merge overlapping/adjacent intervals
@@ -356,12 +362,13 @@ func coalesceIntervals(intervals []ast.Interval) []ast.Interval {
 	for i := 1; i < len(concrete); i++ {
 		last := &result[len(result)-1]
 		curr := concrete[i]
+		lastEnd, currStart := GetEndTime(*last), GetStartTime(curr)
 
 		// Check if current overlaps or is adjacent to last
 		// Adjacent means end of last + 1 nanosecond = start of current
-		if last.End.Timestamp >= curr.Start.Timestamp-1 {
+		if lastEnd == maxInt64 || lastEnd >= currStart || lastEnd+1 == currStart {
 			// Merge: extend the end if needed
-			if curr.End.Timestamp > last.End.Timestamp {
+			if GetEndTime(curr) > lastEnd {
 				last.End = curr.End
 			}
 		} else {
